@@ -38,11 +38,14 @@ class Runner:
         self.case = case
         n = len(case['bounds'])
         self.names = [f'p{i}' for i in range(n)]
+        self.events = set(case.get('events', []))
         ns = {}
         for i, (b, v) in enumerate(zip(case['bounds'], case['init'])):
-            ns[f'p{i}'] = param.Integer(default=v, bounds=(b[0], b[1]))
+            ns[f'p{i}'] = param.Event() if i in self.events else param.Integer(default=v, bounds=(b[0], b[1]))
         self.cls = type('D', (param.Parameterized,), ns)
-        self.obj = self.cls()
+        # the same programs run on an instance or on the class itself (class-level watchers and assignment)
+        self.on_class = case.get('level') == 'class'
+        self.obj = self.cls if self.on_class else self.cls()
         self.wobjs = {}          # watcher id -> Watcher object
         self.stack = [[]]
         for w in case['watchers']:
@@ -53,13 +56,22 @@ class Runner:
         p = self.obj.param
         return bool(p._BATCH_WATCH), bool(p._TRIGGER)
 
+    def _wlist(self, name):
+        if self.on_class:
+            return self.cls.param[name].watchers.get('value', [])
+        return self.obj._param__private.watchers.get(name, {}).get('value', [])
+
     def _regs(self, i):
-        lst = self.obj._param__private.watchers.get(self.names[i], {}).get('value', [])
+        lst = self._wlist(self.names[i])
         ids = {id(w): k for k, w in self.wobjs.items()}
         return [ids.get(id(w), -1) for w in lst]
 
     def _val(self, i):
-        return getattr(self.obj, self.names[i])
+        return int(getattr(self.obj, self.names[i]))
+
+    def _py(self, i, v):
+        """the Python value assigned for model value v: Event parameters hold booleans"""
+        return bool(v) if (i in self.events and v in (0, 1)) else v
 
     def world(self):
         p = self.obj.param
@@ -67,10 +79,10 @@ class Runner:
         b, t = self._flags()
         regs = []
         for k, w in self.wobjs.items():
-            if any(any(x is w for x in self.obj._param__private.watchers.get(n, {}).get('value', [])) for n in self.names):
+            if any(any(x is w for x in self._wlist(n)) for n in self.names):
                 regs.append(k)
         return {'vals': [self._val(i) for i in range(len(self.names))], 'batch': b, 'trigger': t,
-                'events': [[self.names.index(e.name), e.old, e.new] for e in p._events],
+                'events': [[self.names.index(e.name), int(e.old), int(e.new)] for e in p._events],
                 'queued': [ids.get(id(w), -1) for w in p._state_watchers],
                 'regs': self._order_regs(regs)}
 
@@ -87,7 +99,7 @@ class Runner:
             caller = sys._getframe(2).f_code.co_name if sys._getframe(1).f_code.co_name == '_execute_watcher' else '?'
             via = {'_call_watcher': False, '_batch_call_watchers': True}.get(caller)
             node = {'t': 'call', 'w': wid,
-                    'evs': [[runner.names.index(e.name), e.old, e.new, e.type] for e in events],
+                    'evs': [[runner.names.index(e.name), int(e.old), int(e.new), e.type] for e in events],
                     'flush': via, 'snap': [runner._val(i) for i in range(len(runner.names))], 'ch': [], 'res': None}
             runner.stack[-1].append(node)
             runner.stack.append(node['ch'])
@@ -140,26 +152,26 @@ class Runner:
         if k == 'set':
             p = s['p']
             node = self._node('set', p, self._val(p), s['v'], self._regs(p))
-            self._in(node, lambda: setattr(obj, self.names[p], s['v']))
+            self._in(node, lambda: setattr(obj, self.names[p], self._py(p, s['v'])))
         elif k == 'update':
             kvs = list(dict((a, b) for a, b in s['kvs']).items())
             node = self._node('update')
             self._keys(node, kvs, node['tr'])
-            self._in(node, lambda: obj.param.update({self._name(a): b for a, b in kvs}))
+            self._in(node, lambda: obj.param.update({self._name(a): self._py(a, b) for a, b in kvs}))
         elif k == 'updateCtx':
             kvs = list(dict((a, b) for a, b in s['kvs']).items())
             node = self._node('updateCtx')
             self._keys(node, kvs, node['tr'])
 
             def go():
-                ctx = obj.param.update({self._name(a): b for a, b in kvs})
+                ctx = obj.param.update({self._name(a): self._py(a, b) for a, b in kvs})
                 restore = dict(ctx.__enter__())
                 exc = None
                 try:
                     self.run_stmts(s['body'])
                 except Exception as e:
                     exc = e
-                self._keys(node, [(self.names.index(n), v) for n, v in restore.items()], self._flags()[1])
+                self._keys(node, [(self.names.index(n), int(v)) for n, v in restore.items()], self._flags()[1])
                 ctx.__exit__(type(exc) if exc else None, exc, None)
                 if exc is not None:
                     raise exc
@@ -167,7 +179,7 @@ class Runner:
         elif k == 'trigger':
             ps = list(dict.fromkeys(s['ps']))
             node = self._node('trigger')
-            self._keys(node, [(p, self._val(p)) for p in ps], True)
+            self._keys(node, [(p, 1 if p in self.events else self._val(p)) for p in ps], True)
             self._in(node, lambda: obj.param.trigger(*[self.names[p] for p in ps]))
         elif k == 'batch':
             node = self._node('batch')
@@ -261,6 +273,10 @@ def gen_case(rng, prop, max_params=4, max_watchers=5, faults=False, size=8):
     n = rng.randint(1, max_params)
     bounds = [[0, 9] if rng.random() < 0.7 else [None, None] for _ in range(n)]
     init = [rng.randint(0, 3) for _ in range(n)]
+    events = [i for i in range(n) if rng.random() < 0.2]
+    for i in events:
+        bounds[i], init[i] = [0, 1], 0
+    level = 'class' if rng.random() < 0.2 else 'instance'
     nb = rng.randint(0, 4)
     state = {'next_wid': 0}
 
@@ -293,14 +309,17 @@ def gen_case(rng, prop, max_params=4, max_watchers=5, faults=False, size=8):
             if not limit:
                 return {'s': 'try', 'body': []}
             k = 'set'
+        def pv(i):
+            return rng.choice([1, 1, 1, 0, 7]) if i in events else value()
         if k == 'set':
-            return {'s': 'set', 'p': rng.randrange(limit), 'v': value()}
+            p = rng.randrange(limit)
+            return {'s': 'set', 'p': p, 'v': pv(p)}
         if k == 'update':
             ks = rng.sample(range(limit), rng.randint(1, min(limit, 3)))
-            return {'s': 'update', 'kvs': [[i, value()] for i in ks]}
+            return {'s': 'update', 'kvs': [[i, pv(i)] for i in ks]}
         if k == 'updateCtx':
             ks = rng.sample(range(limit), rng.randint(1, min(limit, 2)))
-            return {'s': 'updateCtx', 'kvs': [[i, value()] for i in ks], 'body': body(depth - 1, limit, in_body)}
+            return {'s': 'updateCtx', 'kvs': [[i, pv(i)] for i in ks], 'body': body(depth - 1, limit, in_body)}
         if k == 'trigger':
             return {'s': 'trigger', 'ps': rng.sample(range(limit), rng.randint(1, min(limit, 2)))}
         if k in ('batch', 'discard', 'try'):
@@ -331,7 +350,8 @@ def gen_case(rng, prop, max_params=4, max_watchers=5, faults=False, size=8):
               for j in range(nb)]
     watchers = [mk_for_body() for _ in range(rng.randint(1, max_watchers))]
     program = [stmt(3, n, False) for _ in range(rng.randint(1, size))]
-    return {'prop': prop, 'bounds': bounds, 'init': init, 'watchers': watchers, 'bodies': bodies, 'program': program}
+    return {'prop': prop, 'level': level, 'events': events, 'bounds': bounds, 'init': init, 'watchers': watchers,
+            'bodies': bodies, 'program': program}
 
 
 def shrink(case):
@@ -371,7 +391,8 @@ def walk(items):
 
 
 def tags(case, impl):
-    t = [f'nparams={len(case["bounds"])}', f'nwatchers={len(case["watchers"])}']
+    t = [f'nparams={len(case["bounds"])}', f'nwatchers={len(case["watchers"])}', 'level:' + case.get('level', 'instance'),
+         'events:' + ('yes' if case.get('events') else 'no')]
     if isinstance(impl, dict) and 'steps' in impl:
         for st in impl['steps']:
             t.append('top:' + st['res'].split(':')[0])
